@@ -5,11 +5,12 @@ Property theorems only (helper lemmas: GlotaranProofs/Lemmas/C18.lean, C18FS.lea
 Part (a) is about `protect`, `runSave` (interpreting the effect lists regenerated from the source,
 `Generated.saveFns`) and `guardedWrite`; the io plugin is an arbitrary function.
 Part (b) is about `previous`, `createRunName`, `save`, `fallback`, `getLatest`, `loadResult` on every
-directory listing and every history of `Project.optimize` calls (no bound on the number of names;
-at most 10 000 runs per name, see `RoomFor`).
+directory listing and every history of `Project.optimize` calls (no bound on the number of names, on the
+length of the history or on the run numbers: since the run-10000 fix run numbers may have any number of digits).
 -/
 import GlotaranProofs.Lemmas.C18
 import GlotaranProofs.Lemmas.C18FS
+import GlotaranProofs.Lemmas.C18Plugin
 import GlotaranModel.Generated.C18
 namespace Glotaran.C18
 
@@ -229,6 +230,142 @@ example : guardedWrite .importData exFS ["keep.txt"] false false "new" = (exFS, 
     (guardedWrite .generateModel exFS ["keep.txt"] true false "new").2 = .written ∧
     guardedWrite .projectCreate exFS ["d", "out.yml"] false false "new" = (exFS, .refused) := by decide
 
+/-! ## (a') the builtin result plugins after entry: which files `save_result` writes
+
+`runResultPlugin Generated.resultPlugins o w fmt p` interprets the step lists regenerated from
+`YmlProjectIo.save_result` / `FolderProjectIo.save_result`; the writers of the single files are the
+parameters `w` (any content, any of them may raise before or after writing). -/
+
+/-- (regenerated table) every step of the yml and of the folder plugin is classified (no call the
+    extractor does not know), unconditional up to `saving_options.report` and the loop over the dataset
+    labels, and points to a file directly inside the result folder (or to the result file); the nested
+    `save_result(…, format_name="folder")` goes to the result folder itself and to a plugin without nesting -/
+theorem result_plugins_well_placed :
+    ∀ pl ∈ Generated.resultPlugins, wellPlaced Generated.resultPlugins pl = true := by decide
+
+private theorem wellPlaced_of_find (fmt : String) (pl : ResultPlugin)
+    (h : findPlugin Generated.resultPlugins fmt = some pl) : wellPlaced Generated.resultPlugins pl = true :=
+  result_plugins_well_placed pl (List.mem_of_find?_eq_some h)
+
+example : (Generated.resultPlugins.map (·.cls)) = ["YmlProjectIo", "FolderProjectIo"] ∧
+    (findPlugin Generated.resultPlugins "yml").isSome ∧ (findPlugin Generated.resultPlugins "folder").isSome := by decide
+
+def exOpts : SaveOpts := { labels := ["dataset_1", "d.2"], paramFormat := "csv", dataFormat := "nc", report := true }
+
+/-- the documented files are among those the table lists, the dataset files carry the labels -/
+example : ["run", "result.yml"] ∈ resultFiles Generated.resultPlugins exOpts "yml" ["run", "result.yml"] ∧
+    ["run", "model.yml"] ∈ resultFiles Generated.resultPlugins exOpts "yml" ["run", "result.yml"] ∧
+    ["run", "d.2.nc"] ∈ resultFiles Generated.resultPlugins exOpts "yml" ["run"] ∧
+    ["run", "optimized_parameters.csv"] ∈ resultFiles Generated.resultPlugins exOpts "folder" ["run"] ∧
+    (resultFiles Generated.resultPlugins exOpts "yml" ["run", "result.yml"]).length = 10 := by decide
+
+/-- **a result plugin changes only its result files**: whatever the single-file writers put into the
+    files and wherever one of them raises, every entry of the tree is afterwards what it was, or a newly
+    created folder, or one of the files the table lists -/
+theorem save_result_changes_only_result_files (o : SaveOpts) (w : World) (fmt : String) (p : Path) (fs : FS) (q : Path) :
+    get (runResultPlugin Generated.resultPlugins o w fmt p fs).1 q = get fs q ∨
+    (get fs q = none ∧ get (runResultPlugin Generated.resultPlugins o w fmt p fs).1 q = some .dir) ∨
+    q ∈ resultFiles Generated.resultPlugins o fmt p :=
+  runResultPlugin_changed Generated.resultPlugins o w fmt p fs (wellPlaced_of_find fmt) q
+
+/-- all those files are direct children of the result folder (the folder of `result.yml`, or the given
+    folder) — for every list of dataset labels and every format name (single path components) -/
+theorem result_files_are_children_of_result_folder (o : SaveOpts) (fmt : String) (p : Path) (pl : ResultPlugin)
+    (hf : findPlugin Generated.resultPlugins fmt = some pl) :
+    ∀ q ∈ resultFiles Generated.resultPlugins o fmt p, ∃ x, q = resultFolderOf pl p ++ [x] :=
+  resultFiles_children Generated.resultPlugins o fmt p pl hf (wellPlaced_of_find fmt pl hf)
+
+/-- **`save_result` writes only inside the target folder**: an entry outside the result folder is left
+    alone (at most a missing folder on the way to the result folder is created); in particular no file
+    outside the folder is created, changed or removed — by any of the builtin yml / folder plugins, for any
+    result, any saving options and any failure of a writer -/
+theorem save_result_writes_only_inside_target_folder (o : SaveOpts) (w : World) (fmt : String) (p : Path) (fs : FS)
+    (pl : ResultPlugin) (hf : findPlugin Generated.resultPlugins fmt = some pl)
+    (q : Path) (hq : ¬ resultFolderOf pl p <+: q) :
+    (get (runResultPlugin Generated.resultPlugins o w fmt p fs).1 q = get fs q ∨
+      (get fs q = none ∧ get (runResultPlugin Generated.resultPlugins o w fmt p fs).1 q = some .dir)) ∧
+    ∀ c, get (runResultPlugin Generated.resultPlugins o w fmt p fs).1 q = some (.file c) ↔ get fs q = some (.file c) := by
+  have hnot : q ∉ resultFiles Generated.resultPlugins o fmt p := by
+    intro hmem
+    obtain ⟨x, hx⟩ := result_files_are_children_of_result_folder o fmt p pl hf q hmem
+    exact hq ⟨[x], hx.symm⟩
+  have hch := runResultPlugin_changed Generated.resultPlugins o w fmt p fs (wellPlaced_of_find fmt)
+  refine ⟨?_, fun c => hch.file_iff q hnot c⟩
+  rcases hch q with h | h | h
+  · exact Or.inl h
+  · exact Or.inr h
+  · exact absurd h hnot
+
+/-- a world in which every writer succeeds and writes "W" -/
+def exWorld : World := { content := fun _ => "W", fail := fun _ => none, unknown := fun _ fs => (fs, none) }
+
+/-- non-vacuity: the yml plugin on `exFS` writes into `d/run` only, `keep.txt` and `d/out.yml` stay -/
+example : findPlugin Generated.resultPlugins "yml" = some (Generated.resultPlugins.head!) ∧
+    resultFolderOf Generated.resultPlugins.head! ["d", "run", "result.yml"] = ["d", "run"] ∧
+    (runResultPlugin Generated.resultPlugins exOpts exWorld "yml" ["d", "run", "result.yml"] exFS).2 = none ∧
+    get (runResultPlugin Generated.resultPlugins exOpts exWorld "yml" ["d", "run", "result.yml"] exFS).1 ["d", "run", "scheme.yml"]
+      = some (.file "W") ∧
+    get (runResultPlugin Generated.resultPlugins exOpts exWorld "yml" ["d", "run", "result.yml"] exFS).1 ["keep.txt"]
+      = some (.file "keep") := by decide
+
+/-- a writer that raises midway: the files written before stay, nothing outside the folder is touched -/
+example : (runResultPlugin Generated.resultPlugins exOpts
+      { exWorld with fail := fun q => if q = ["d", "run", "parameter_history.csv"] then some (.isADirectory, false) else none }
+      "yml" ["d", "run"] exFS) =
+    ((["d", "run", "optimized_parameters.csv"], .file "W") :: (["d", "run", "initial_parameters.csv"], .file "W") ::
+      (["d", "run", "result.md"], .file "W") :: (["d", "run"], .dir) :: exFS, some .isADirectory) := by decide
+
+/-- `save_result` with the builtin plugin behind the entry of the regenerated table -/
+def withBuiltinPlugin (env : Env) (o : SaveOpts) (w : World) (fmt : String) : Env :=
+  { env with plugin := fun _ fs => runResultPlugin Generated.resultPlugins o w fmt env.path fs }
+
+/-- the whole call — check, plugin lookup, builtin plugin — changes only the result files (and creates
+    missing folders) -/
+theorem save_result_entry_changes_only_result_files (f : SaveFn) (env : Env) (o : SaveOpts) (w : World) (fmt : String)
+    (fs : FS) (hunknown : ∀ n fs, (env.unknown n fs).1 = fs) (q : Path) :
+    get (runSave f (withBuiltinPlugin env o w fmt) fs).1 q = get fs q ∨
+    (get fs q = none ∧ get (runSave f (withBuiltinPlugin env o w fmt) fs).1 q = some .dir) ∨
+    q ∈ resultFiles Generated.resultPlugins o fmt env.path := by
+  have := runSteps_changedIn f (withBuiltinPlugin env o w fmt) (· ∈ resultFiles Generated.resultPlugins o fmt env.path)
+    (fun _ fs => runResultPlugin_changed Generated.resultPlugins o w fmt env.path fs (wellPlaced_of_find fmt))
+    (fun n fs => by
+      have h : ((withBuiltinPlugin env o w fmt).unknown n fs).1 = fs := hunknown n fs
+      rw [h]; exact ChangedIn.refl _ _)
+    f.steps fs none
+  exact this q
+
+/-- **a run saved into a fresh folder destroys nothing**: when the result folder does not exist yet (as for
+    every run of `ProjectResultRegistry.save`: `run_name_fresh`), every file of the tree is byte-identical
+    afterwards — although the builtin plugins write their files with `allow_overwrite=True` -/
+theorem save_result_into_absent_folder_keeps_every_file (f : SaveFn) (env : Env) (o : SaveOpts) (w : World)
+    (fmt : String) (fs : FS) (pl : ResultPlugin) (hf : findPlugin Generated.resultPlugins fmt = some pl)
+    (hunknown : ∀ n fs, (env.unknown n fs).1 = fs) (hwf : WF fs)
+    (hne : resultFolderOf pl env.path ≠ []) (habs : get fs (resultFolderOf pl env.path) = none)
+    (q : Path) (c : String) (hq : get fs q = some (.file c)) :
+    get (runSave f (withBuiltinPlugin env o w fmt) fs).1 q = some (.file c) := by
+  rcases save_result_entry_changes_only_result_files f env o w fmt fs hunknown q with h | ⟨h, _⟩ | h
+  · rw [h]; exact hq
+  · rw [hq] at h; cases h
+  · obtain ⟨x, hx⟩ := result_files_are_children_of_result_folder o fmt env.path pl hf q h
+    have := hwf.nothing_below_missing _ x hne habs
+    rw [← hx, hq] at this
+    cases this
+
+def exEnv (p : Path) : Env :=
+  { path := p, allow := false, formatName := none, known := ["yml", "yaml", "folder"],
+    plugin := fun _ fs => (fs, none), unknown := fun _ fs => (fs, none),
+    maybeHolds := fun _ => true, otherBool := fun _ => false, otherPath := fun _ => [] }
+
+/-- non-vacuity: `d/run` is absent in `exFS`; and what the observation "siblings are overwritten" means:
+    with `d/run2/model.yml` present but no `result.yml`, the check passes and `model.yml` is rewritten -/
+example : get exFS ["d", "run"] = none ∧
+    (∀ f ∈ Generated.saveFns, f.name = "save_result" →
+      (runSave f (withBuiltinPlugin (exEnv ["d", "run", "result.yml"]) exOpts exWorld "yaml") exFS).2 = none) ∧
+    (∀ f ∈ Generated.saveFns, f.name = "save_result" →
+      get (runSave f (withBuiltinPlugin (exEnv ["d", "run2", "result.yml"]) exOpts exWorld "yaml")
+        ((["d", "run2", "model.yml"], .file "old") :: (["d", "run2"], .dir) :: exFS)).1 ["d", "run2", "model.yml"]
+        = some (.file "W")) := by decide
+
 /-- (regenerated table of call sites) a project result run is saved with the default
     `allow_overwrite=False`: an existing run can only be refused, never overwritten -/
 theorem registry_save_uses_default_allow :
@@ -246,10 +383,11 @@ theorem project_writers_pass_allow_through :
       c.allow = .param "allow_overwrite" := by decide
 
 /-- (regenerated constants) the regular expressions and f-strings of the source are the ones
-    `hasRunSuffix`, `endsWithRunSpecifier`, `isRunOf`, `runName` model -/
+    `hasRunSuffix`, `endsWithRunSpecifier`, `isRunOf`, `runName` model (after the run-10000 fix:
+    four *or more* digits everywhere) -/
 theorem source_patterns_are_the_modelled_ones :
-    Generated.classPatterns = [("result_pattern", ".+_run_\\d{4}$"), ("run_specifier_pattern", "_run_\\d{4}$")] ∧
-    Generated.previousFilter = [["{re.escape()}", "_run_\\d{4}"]] ∧
+    Generated.classPatterns = [("result_pattern", ".+_run_\\d{4,}$"), ("run_specifier_pattern", "_run_\\d{4,}$")] ∧
+    Generated.previousFilter = [["{re.escape()}", "_run_(\\d{4,})"]] ∧
     (∀ fmt ∈ Generated.runNameFormats, fmt = ["{}", "_run_0000"] ∨ fmt = ["{}", "_run_", "{:04}"]) ∧
     Generated.runNameFormats.length = 2 ∧
     Generated.latestSubPatterns = [("get_latest_result_path", "run_specifier_pattern"),
@@ -267,37 +405,54 @@ def countSaves (base : Name) (hist : History) : Nat := (hist.filter (fun x => x.
 /-- the results stored under `base`, in order -/
 def payloads (base : Name) (hist : History) : List Nat := (hist.filter (fun x => x.1 = base)).map (·.2)
 
-/-- **fresh run number**: the folder of the next run of `base` does not exist yet — whatever else
-    the results folder holds (runs of other names that extend `base`, foreign files, …) -/
-theorem run_name_fresh (d : Dir) (base : Name) (hb : RoomFor d base) : createRunName d base ∉ names d :=
-  createRunName_fresh d base hb
+/-- **fresh run number**: the folder of the next run of `base` does not exist yet — whatever the
+    results folder holds (any number of earlier runs, runs of other names that extend `base`, foreign
+    files, run numbers with more than four digits or with leading zeros, …) -/
+theorem run_name_fresh (d : Dir) (base : Name) : createRunName d base ∉ names d :=
+  createRunName_fresh d base
 
-example : RoomFor [⟨"a_run_0000".toList, .run 1⟩, ⟨"a_run_b_run_0000".toList, .run 2⟩] "a".toList := by
-  intro l hl
-  have : l = "a_run_0000".toList := by
-    have h : previous [⟨"a_run_0000".toList, .run 1⟩, ⟨"a_run_b_run_0000".toList, .run 2⟩] "a".toList
-        = ["a_run_0000".toList] := by decide
-    rw [h] at hl; simpa using hl
-  subst this; decide
+/-- a folder that holds run 9999 and run 10000: the next run is 10001 -/
+def exDirBeyond : Dir := [⟨"a_run_9999".toList, .run 1⟩, ⟨"a_run_10000".toList, .run 2⟩,
+  ⟨"a_run_b_run_0000".toList, .run 3⟩]
+
+example : createRunName exDirBeyond "a".toList = "a_run_10001".toList ∧
+    previous exDirBeyond "a".toList = ["a_run_9999".toList, "a_run_10000".toList] := by decide
 
 /-- **strictly increasing**: the next run is a run of `base` whose number exceeds every earlier one -/
-theorem run_number_increases (d : Dir) (base : Name) (hb : RoomFor d base) :
+theorem run_number_increases (d : Dir) (base : Name) :
     isRunOf base (createRunName d base) = true ∧
     ∀ l ∈ previous d base, runNumber base l < runNumber base (createRunName d base) := by
-  obtain ⟨k, hk, he, hlt, _⟩ := createRunName_spec d base hb
-  rw [he, runNumber_runName base k hk]
-  exact ⟨isRunOf_runName base k hk, hlt⟩
+  obtain ⟨k, he, hlt⟩ := createRunName_spec d base
+  rw [he, runNumber_runName base k]
+  exact ⟨isRunOf_runName base k, hlt⟩
 
 example : createRunName [⟨"a_run_0000".toList, .run 1⟩, ⟨"a_run_0007".toList, .file⟩,
-    ⟨"a_run_b_run_0042".toList, .run 2⟩] "a".toList = "a_run_0008".toList := by decide
+    ⟨"a_run_b_run_0042".toList, .run 2⟩, ⟨"a_run_00003".toList, .emptyDir⟩] "a".toList = "a_run_0008".toList := by decide
+
+/-- regression (run-10000), the code before the fix: runs were the folders with *exactly* four digits,
+    ordered as strings -/
+def legacyIsRunOf (base n : Name) : Bool :=
+  match stripPrefix (base ++ runInfix) n with
+  | some ds => ds.length == 4 && ds.all isDigit
+  | none => false
+
+def legacyCreateRunName (d : Dir) (base : Name) : Name :=
+  match (isort ((names d).filter (legacyIsRunOf base))).getLast? with
+  | none => runName base 0
+  | some l => runName base (runNumber base l + 1)
+
+/-- the old numbering repeated itself after run 10000 (the second `a_run_10000` was then refused by the
+    overwrite protection: the optimisation result was lost); the fixed one continues with 10001 -/
+example : legacyCreateRunName exDirBeyond "a".toList = "a_run_10000".toList ∧
+    "a_run_10000".toList ∈ names exDirBeyond ∧
+    createRunName exDirBeyond "a".toList ∉ names exDirBeyond := by decide
 
 /-- **exactly that name** (D13): storing a run of `base` changes neither the runs nor the next run
     name of any other result name, however the two names overlap -/
-theorem other_names_unaffected (d : Dir) (base base' : Name) (payload : Nat) (hb : RoomFor d base)
-    (hne : base' ≠ base) :
+theorem other_names_unaffected (d : Dir) (base base' : Name) (payload : Nat) (hne : base' ≠ base) :
     previous (save d base payload).1 base' = previous d base' ∧
     createRunName (save d base payload).1 base' = createRunName d base' := by
-  have h := previous_save_other d base base' payload hb hne
+  have h := previous_save_other d base base' payload hne
   exact ⟨h, by unfold createRunName; rw [h]⟩
 
 /-- regression D13: `a`, `a`, `a_run_b`, `a` -/
@@ -328,17 +483,26 @@ example : kindOf [⟨"a_run_0000".toList, .run 7⟩] "a_run_0000".toList = some 
       "a_run_0000".toList false = .loaded "a_run_0000".toList 7 false := by decide
 
 example : hasRunSuffix "a.b_run_0000".toList = true ∧ hasRunSuffix "a_run_b".toList = false ∧
-    hasRunSuffix "_run_0000".toList = false := by decide
+    hasRunSuffix "_run_0000".toList = false ∧ hasRunSuffix "a_run_10000".toList = true ∧
+    hasRunSuffix "a_run_000".toList = false := by decide
+
+/-- every stored run name is accepted as a run name by `load_result` (`result_pattern` matches it)
+    when the result name is not empty — also beyond run 9999 -/
+theorem run_names_have_run_suffix (base : Name) (k : Nat) (hb : base ≠ []) : hasRunSuffix (runName base k) = true := by
+  unfold runName
+  rw [hasRunSuffix_run base (fmt4 k) (fmt4_length k) (fmt4_digits k)]
+  simp [hb]
+
+example : hasRunSuffix (runName "a".toList 123456) = true := by decide
 
 /-- **latest is the most recent run of exactly that name**: right after storing a run of `base`
     the latest-lookups of `base` resolve to it and load it -/
-theorem latest_after_save (d : Dir) (base : Name) (payload : Nat) (hb : RoomFor d base)
-    (hs : hasRunSuffix base = false) :
+theorem latest_after_save (d : Dir) (base : Name) (payload : Nat) (hs : hasRunSuffix base = false) :
     fallback (save d base payload).1 base true = .found (createRunName d base) false ∧
     loadResult (save d base payload).1 base true = .loaded (createRunName d base) payload false := by
-  have hp := previous_save_self d base payload hb
+  have hp := previous_save_self d base payload
   have hk : kindOf (save d base payload).1 (createRunName d base) = some (.run payload) := by
-    rw [save_eq d base payload hb]; exact kindOf_setEntry_self _ _ _
+    rw [save_eq d base payload]; exact kindOf_setEntry_self _ _ _
   have hf : fallback (save d base payload).1 base true = .found (createRunName d base) false := by
     simp [fallback, hs, hp, isDirEntry, hk]
   exact ⟨hf, by simp [loadResult, hf, loadFound, hk]⟩
@@ -346,32 +510,46 @@ theorem latest_after_save (d : Dir) (base : Name) (payload : Nat) (hb : RoomFor 
 example : loadResult (save [⟨"a_run_0000".toList, .run 1⟩, ⟨"a_run_b_run_0003".toList, .run 2⟩] "a".toList 5).1 "a".toList true
     = .loaded "a_run_0001".toList 5 false := by decide
 
-/-- a run specifier on the name is removed by the latest-lookups, and nothing else -/
-theorem latest_accepts_run_specifier (d : Dir) (base : Name) (k : Nat) (hk : k < 10000) :
+example : loadResult (save exDirBeyond "a".toList 5).1 "a".toList true = .loaded "a_run_10001".toList 5 false := by decide
+
+/-- a run specifier on the name is removed by the latest-lookups, and nothing else — for every run number -/
+theorem latest_accepts_run_specifier (d : Dir) (base : Name) (k : Nat) :
     getLatest d (runName base k) = fallback d base true := by
-  have hl : (runName base k).length = base.length + 9 := by
-    simp [runName, runInfix_length, fmt4_length k hk]
-  have hdrop : (runName base k).drop ((runName base k).length - 9) = runInfix ++ fmt4 k := by
-    have : (runName base k).length - 9 = base.length := by omega
-    rw [this]; unfold runName; rw [List.append_assoc, List.drop_left]
-  have htake : (runName base k).take ((runName base k).length - 9) = base := by
-    have : (runName base k).length - 9 = base.length := by omega
-    rw [this]; unfold runName; rw [List.append_assoc, List.take_left]
-  have hends : endsWithRunSpecifier (runName base k) = true := by
-    unfold endsWithRunSpecifier
-    simp only [hdrop]
-    have h5 : (runInfix ++ fmt4 k).take 5 = runInfix := by
-      have : (5 : Nat) = runInfix.length := rfl
-      rw [this, List.take_left]
-    have h5' : (runInfix ++ fmt4 k).drop 5 = fmt4 k := by
-      have : (5 : Nat) = runInfix.length := rfl
-      rw [this, List.drop_left]
-    simp [h5, h5', fmt4_digits k hk, hl]
-  simp [getLatest, stripRunSpecifier, hends, htake]
+  unfold getLatest runName
+  rw [(endsWithRunSpecifier_run base (fmt4 k) (fmt4_length k) (fmt4_digits k)).2]
 
 /-- regression (latest-run-specifier): `get_latest_result_path("a_run_0000")` is the latest run of `a` -/
 example : getLatest (exec [] [("a".toList, 1), ("a".toList, 2)]) "a_run_0000".toList
     = .found "a_run_0001".toList false := by decide
+
+/-- **result names that themselves end in a run specifier** (`r = b_run_<four or more digits>`), stated
+    instead of excluded.  (1) `get_latest_result_path(r)` / `load_latest_result(r)` remove the specifier:
+    they are the latest-lookups of the *other* name `b`.  (2) `get_result_path(r, latest=…)` /
+    `load_result(r, latest=…)` take `r` as the name of a run folder: they return the folder `r` itself
+    (a run of `b`, if it exists) and never look at the runs `r_run_NNNN` of the result `r`.
+    (3) For `b = ""` the name does not match `result_pattern`; it is then an ordinary result name for
+    `get_result_path`, while the latest-lookups ask for the result `""`. -/
+theorem latest_of_run_suffixed_name_spec (d : Dir) (b ds : Name) (hl : 4 ≤ ds.length) (hd : ds.all isDigit = true) :
+    getLatest d (b ++ runInfix ++ ds) = fallback d b true ∧
+    loadLatest d (b ++ runInfix ++ ds) = loadResult d b true ∧
+    (b ≠ [] → ∀ latest, fallback d (b ++ runInfix ++ ds) latest =
+      if isDirEntry d (b ++ runInfix ++ ds) then .found (b ++ runInfix ++ ds) false
+      else .notFound (b ++ runInfix ++ ds) false) ∧
+    (b = [] → hasRunSuffix (b ++ runInfix ++ ds) = false) := by
+  have hstrip := (endsWithRunSpecifier_run b ds hl hd).2
+  have hsuf := hasRunSuffix_run b ds hl hd
+  refine ⟨by unfold getLatest; rw [hstrip], by unfold loadLatest loadResult getLatest; rw [hstrip], ?_, ?_⟩
+  · intro hb latest
+    have hs : hasRunSuffix (b ++ runInfix ++ ds) = true := by rw [hsuf]; simp [hb]
+    simp only [fallback, hs, ↓reduceIte]
+  · intro hb
+    rw [hsuf]; simp [hb]
+
+example : getLatest (exec [] [("a".toList, 1), ("a_run_0000".toList, 2), ("a".toList, 3)]) "a_run_0000".toList
+      = .found "a_run_0001".toList false ∧
+    fallback (exec [] [("a".toList, 1), ("a_run_0000".toList, 2), ("a".toList, 3)]) "a_run_0000".toList true
+      = .found "a_run_0000".toList false ∧
+    getLatest (exec [] [("_run_0000".toList, 1)]) "_run_0000".toList = .found [] false := by decide
 
 /-! ### whole histories, starting from an empty results folder -/
 
@@ -387,9 +565,6 @@ private theorem payloads_snoc (base : Name) (hist : History) (x : Name × Nat) :
   rw [List.filter_append, List.map_append]
   by_cases h : x.1 = base <;> simp [h]
 
-private theorem countSaves_le (base : Name) (hist : History) : countSaves base hist ≤ hist.length :=
-  List.length_filter_le _ _
-
 private theorem payloads_length (base : Name) (hist : History) : (payloads base hist).length = countSaves base hist := by
   simp [payloads, countSaves]
 
@@ -399,31 +574,22 @@ private theorem getLast?_runs (base : Name) (c : Nat) :
   | zero => rfl
   | succ n => simp [List.range_succ, List.map_append]
 
-/-- what holds after every history of at most 10 000 optimisations -/
+/-- what holds after every history of optimisations -/
 private def HistInv (hist : History) : Prop :=
   (∀ base, previous (exec [] hist) base = (List.range (countSaves base hist)).map (runName base)) ∧
-  (∀ base k p, (payloads base hist)[k]? = some p → kindOf (exec [] hist) (runName base k) = some (.run p))
+  (∀ base k p, (payloads base hist)[k]? = some p → kindOf (exec [] hist) (runName base k) = some (.run p)) ∧
+  (∀ n ∈ names (exec [] hist), ∃ base k, n = runName base k)
 
-private theorem histInv_rev (l : History) (hlen : l.length ≤ 10000) : HistInv l.reverse := by
+private theorem histInv_rev (l : History) : HistInv l.reverse := by
   induction l with
   | nil =>
-    refine ⟨fun base => by simp [exec, previous, names, isort, countSaves], ?_⟩
+    refine ⟨fun base => by simp [exec, previous, names, isortBy, countSaves], ?_, by simp [exec, names]⟩
     intro base k p h
     simp [payloads] at h
   | cons x l ih =>
-    have hl : l.length ≤ 9999 := by simp at hlen; omega
-    obtain ⟨ihN, ihP⟩ := ih (by omega)
+    obtain ⟨ihN, ihP, ihR⟩ := ih
     rw [List.reverse_cons]
     obtain ⟨b, q⟩ := x
-    have hc : countSaves b l.reverse ≤ 9999 := by
-      have := countSaves_le b l.reverse; simp at this; omega
-    -- room for one more run of `b`
-    have hroom : RoomFor (exec [] l.reverse) b := by
-      intro r hr
-      rw [ihN b] at hr
-      obtain ⟨j, hj, rfl⟩ := List.mem_map.mp hr
-      have hj' : j < countSaves b l.reverse := List.mem_range.mp hj
-      rw [runNumber_runName b j (by omega)]; omega
     -- the next run name is the count
     have hname : createRunName (exec [] l.reverse) b = runName b (countSaves b l.reverse) := by
       unfold createRunName
@@ -431,19 +597,19 @@ private theorem histInv_rev (l : History) (hlen : l.length ≤ 10000) : HistInv 
       by_cases h0 : countSaves b l.reverse = 0
       · simp [h0]
       · simp only [h0, if_false]
-        rw [runNumber_runName b _ (by omega)]
+        rw [runNumber_runName b _]
         congr 1; omega
-    constructor
+    refine ⟨?_, ?_, ?_⟩
     · intro base
       rw [exec_snoc, countSaves_snoc]
       by_cases hb : b = base
       · subst hb
         simp only [if_true]
-        rw [previous_save_self _ _ _ hroom, ihN b, hname, List.range_succ, List.map_append]
+        rw [previous_save_self _ _ _, ihN b, hname, List.range_succ, List.map_append]
         rfl
       · have hb' : base ≠ b := fun h => hb h.symm
         simp only [hb, if_false, Nat.add_zero]
-        rw [previous_save_other _ b base q hroom hb', ihN base]
+        rw [previous_save_other _ b base q hb', ihN base]
     · intro base k p h
       rw [exec_snoc]
       rw [payloads_snoc] at h
@@ -461,34 +627,65 @@ private theorem histInv_rev (l : History) (hlen : l.length ≤ 10000) : HistInv 
             cases h
             have : k = countSaves b l.reverse := by omega
             subst this
-            rw [save_eq _ _ _ hroom, hname]
+            rw [save_eq _ _ _, hname]
             exact kindOf_setEntry_self _ _ _
           · cases h
       · simp only [hb, if_false, List.append_nil] at h
         exact kindOf_save_run _ _ _ _ _ (ihP base k p h)
+    · intro n hn
+      rw [exec_snoc, save_eq, names_setEntry] at hn
+      rcases List.mem_cons.mp hn with rfl | hn
+      · exact ⟨b, _, hname⟩
+      · exact ihR n (List.mem_filter.mp hn).1
 
-private theorem histInv (hist : History) (hlen : hist.length ≤ 10000) : HistInv hist := by
-  have := histInv_rev hist.reverse (by simpa using hlen)
+private theorem histInv (hist : History) : HistInv hist := by
+  have := histInv_rev hist.reverse
   rwa [List.reverse_reverse] at this
 
-/-- **every history**: after any sequence of optimisations (any names: prefixes of each other,
-    containing `_run_`, dots, …) the runs of `base` are exactly numbered 0, 1, 2, … in the order
+/-- **every history**: after any sequence of optimisations of any length (any names: prefixes of each
+    other, containing `_run_`, dots, …) the runs of `base` are exactly numbered 0, 1, 2, … in the order
     in which they were stored -/
-theorem history_numbering (hist : History) (hlen : hist.length ≤ 10000) (base : Name) :
+theorem history_numbering (hist : History) (base : Name) :
     previous (exec [] hist) base = (List.range (countSaves base hist)).map (runName base) :=
-  (histInv hist hlen).1 base
+  (histInv hist).1 base
 
 example : previous (exec [] [("a".toList, 1), ("a_run_b".toList, 2), ("a".toList, 3), ("a.b".toList, 4), ("a".toList, 5)]) "a".toList
     = ["a_run_0000".toList, "a_run_0001".toList, "a_run_0002".toList] := by decide
 
+/-- the numbering does not stop at 9999: from a folder holding run 9998 the next four runs are
+    9999, 10000, 10001, 10002, in this order -/
+example : previous (exec [⟨"a_run_9998".toList, .run 0⟩] [("a".toList, 1), ("a".toList, 2), ("a".toList, 3), ("a".toList, 4)]) "a".toList
+    = ["a_run_9998".toList, "a_run_9999".toList, "a_run_10000".toList, "a_run_10001".toList, "a_run_10002".toList] := by
+  decide
+
 /-- the k-th run of `base` holds the k-th result stored under `base` -/
-theorem history_payloads (hist : History) (hlen : hist.length ≤ 10000) (base : Name) (k p : Nat)
+theorem history_payloads (hist : History) (base : Name) (k p : Nat)
     (h : (payloads base hist)[k]? = some p) :
     kindOf (exec [] hist) (runName base k) = some (.run p) :=
-  (histInv hist hlen).2 base k p h
+  (histInv hist).2.1 base k p h
 
-/-- the latest-lookups of `base` resolve to the last run stored under `base` and load its result -/
-theorem history_latest (hist : History) (hlen : hist.length ≤ 10000) (base : Name) (p : Nat)
+/-- the results folder holds nothing but the stored runs -/
+theorem history_only_runs (hist : History) (n : Name) (h : n ∈ names (exec [] hist)) :
+    ∃ base k, n = runName base k ∧ k < countSaves base hist := by
+  obtain ⟨base, k, rfl⟩ := (histInv hist).2.2 n h
+  refine ⟨base, k, rfl, ?_⟩
+  have hm : runName base k ∈ previous (exec [] hist) base := (mem_previous _ _ _).mpr ⟨h, isRunOf_runName base k⟩
+  rw [history_numbering] at hm
+  obtain ⟨j, hj, he⟩ := List.mem_map.mp hm
+  rw [← runName_inj base j k he]
+  exact List.mem_range.mp hj
+
+example : names (exec [] [("a".toList, 1), ("b".toList, 2)]) = ["b_run_0000".toList, "a_run_0000".toList] := by decide
+
+/-- the full statement "the latest-lookups of a result name load the most recent run of exactly that
+    name" — false for the code as it is, see `history_latest_counterexample` -/
+def LatestIsMostRecentOfThatName : Prop :=
+  ∀ (hist : History) (base : Name) (p : Nat), (payloads base hist).getLast? = some p →
+    loadLatest (exec [] hist) base = .loaded (runName base (countSaves base hist - 1)) p false
+
+/-- (partial: names that do not end in a run specifier) the latest-lookups of `base` resolve to the
+    last run stored under `base` and load its result -/
+theorem history_latest (hist : History) (base : Name) (p : Nat)
     (hs : endsWithRunSpecifier base = false) (hp : (payloads base hist).getLast? = some p) :
     getLatest (exec [] hist) base = .found (runName base (countSaves base hist - 1)) false ∧
     loadLatest (exec [] hist) base = .loaded (runName base (countSaves base hist - 1)) p false := by
@@ -498,10 +695,10 @@ theorem history_latest (hist : History) (hlen : hist.length ≤ 10000) (base : N
     rw [this] at hp; cases hp
   have hidx : (payloads base hist)[countSaves base hist - 1]? = some p := by
     rw [List.getLast?_eq_getElem?, payloads_length] at hp; exact hp
-  have hk := history_payloads hist hlen base _ p hidx
+  have hk := history_payloads hist base _ p hidx
   have hsuf : hasRunSuffix base = false := by simp [hasRunSuffix, hs]
   have hlast : (previous (exec [] hist) base).getLast? = some (runName base (countSaves base hist - 1)) := by
-    rw [history_numbering hist hlen base, getLast?_runs]; simp [hpos]
+    rw [history_numbering hist base, getLast?_runs]; simp [hpos]
   have hf : getLatest (exec [] hist) base = .found (runName base (countSaves base hist - 1)) false := by
     simp [getLatest, stripRunSpecifier, hs, fallback, hsuf, hlast, isDirEntry, hk]
   exact ⟨hf, by simp [loadLatest, hf, loadFound, hk]⟩
@@ -510,6 +707,56 @@ example : (payloads "a".toList [("a".toList, 7), ("a_run_b".toList, 8), ("a".toL
     endsWithRunSpecifier "a".toList = false ∧
     loadLatest (exec [] [("a".toList, 7), ("a_run_b".toList, 8), ("a".toList, 9)]) "a".toList
       = .loaded "a_run_0001".toList 9 false := by decide
+
+/-- the hypothesis of `history_latest` is needed: for the result name `a_run_0000` the latest-lookups
+    load run 0 of the result `a`, not the run `a_run_0000_run_0000` that was just stored
+    (replayed on the real code by the harness: known finding `latest-run-suffixed-name`) -/
+theorem history_latest_counterexample : ¬ LatestIsMostRecentOfThatName := by
+  intro h
+  have h1 := h [("a".toList, 1), ("a_run_0000".toList, 2)] "a_run_0000".toList 2 (by decide)
+  revert h1
+  decide
+
+/-- what they load instead, for every history: the latest-lookups of `r = b_run_<digits>` (where `b`
+    does not end in a run specifier) load the most recent run of `b` … -/
+theorem history_latest_of_run_suffixed_name (hist : History) (b ds : Name) (p : Nat)
+    (hl : 4 ≤ ds.length) (hd : ds.all isDigit = true)
+    (hb : endsWithRunSpecifier b = false) (hp : (payloads b hist).getLast? = some p) :
+    getLatest (exec [] hist) (b ++ runInfix ++ ds) = .found (runName b (countSaves b hist - 1)) false ∧
+    loadLatest (exec [] hist) (b ++ runInfix ++ ds) = .loaded (runName b (countSaves b hist - 1)) p false := by
+  obtain ⟨h1, h2, _, _⟩ := latest_of_run_suffixed_name_spec (exec [] hist) b ds hl hd
+  obtain ⟨g1, g2⟩ := history_latest hist b p hb hp
+  have hstrip : stripRunSpecifier b = b := by simp [stripRunSpecifier, hb]
+  constructor
+  · rw [h1, ← g1]; unfold getLatest; rw [hstrip]
+  · rw [h2, ← g2]; unfold loadLatest loadResult getLatest; rw [hstrip]
+
+/-- … and when no run of `b` was ever stored they fail with "Result 'b' does not exist" — however many
+    runs of `r` itself there are (for `b = ""` they return the results folder itself) -/
+theorem history_latest_of_run_suffixed_name_no_runs (hist : History) (b ds : Name)
+    (hl : 4 ≤ ds.length) (hd : ds.all isDigit = true)
+    (hb : endsWithRunSpecifier b = false) (h0 : countSaves b hist = 0) :
+    getLatest (exec [] hist) (b ++ runInfix ++ ds) = if b = [] then .found [] false else .notFound b false := by
+  obtain ⟨h1, _, _, _⟩ := latest_of_run_suffixed_name_spec (exec [] hist) b ds hl hd
+  rw [h1]
+  have hsuf : hasRunSuffix b = false := by simp [hasRunSuffix, hb]
+  have hprev : previous (exec [] hist) b = [] := by rw [history_numbering, h0]; rfl
+  have hnot : b ∉ names (exec [] hist) := by
+    intro hmem
+    obtain ⟨base, k, he, _⟩ := history_only_runs hist b hmem
+    have := (endsWithRunSpecifier_run base (fmt4 k) (fmt4_length k) (fmt4_digits k)).1
+    rw [he] at hb
+    unfold runName at hb
+    rw [this] at hb
+    cases hb
+  have hk := (kindOf_none_iff _ _).mpr hnot
+  by_cases hbe : b = []
+  · subst hbe; simp [fallback, hsuf, hprev, isDirEntry]
+  · have : b.isEmpty = false := by cases b <;> simp_all
+    simp [fallback, hsuf, hprev, isDirEntry, hk, hbe, this]
+
+example : getLatest (exec [] [("a_run_0000".toList, 1), ("a_run_0000".toList, 2)]) "a_run_0000".toList
+    = .notFound "a".toList false := by decide
 
 /-- `Project.results` lists every result folder under its own name, once, without warning — when no
     folder name contains a dot (with a dot `Path.stem` cuts the name: modelled bug for bug) -/
@@ -546,12 +793,5 @@ example : items [⟨"a_run_0001".toList, .run 2⟩, ⟨"a_run_0000".toList, .run
 
 /-- with a dot in the name the key is cut (`Path.stem`) -/
 example : items [⟨"a.b_run_0000".toList, .run 1⟩] = ([("a".toList, "a.b_run_0000".toList)], 0) := by decide
-
-/-- the bound is needed: the 10 001st run of a name gets a five-digit number that the run pattern
-    does not recognise, so the numbering repeats (the overwrite protection then refuses the save) -/
-theorem run_name_fresh_counterexample :
-    ¬ (∀ d base, createRunName d base ∉ names d) := by
-  intro h
-  exact h [⟨"a_run_9999".toList, .run 1⟩, ⟨"a_run_10000".toList, .run 2⟩] "a".toList (by decide)
 
 end Glotaran.C18
